@@ -70,6 +70,7 @@ type rangeInfo struct {
 }
 
 type Exec struct {
+	curState *State // state of the instruction being executed (set around conversions that need the heap)
 	g        *Gen
 	P        *Program
 	fn       *ssa.Function
@@ -752,9 +753,27 @@ func (ex *Exec) convert(from, to types.Type, x string) string {
 		if ex.pureMode {
 			unsup("conversion to slice in pure function")
 		}
-		return ex.freshSliceOfLen(nil, to, fmt.Sprintf("(st.len %s)", x))
+		sl := ex.freshSliceOfLen(nil, to, fmt.Sprintf("(st.len %s)", x))
+		// []byte(s): the CONTENT of the fresh slice is the string's bytes. Stated through st.ofbytes over the current
+		// byte-array component, so the link is lost (never wrongly kept) as soon as any byte array is written.
+		if sli, ok := to.Underlying().(*types.Slice); ok && ex.curState != nil {
+			if b, ok := sli.Elem().Underlying().(*types.Basic); ok && b.Kind() == types.Uint8 {
+				if _, isStr := from.Underlying().(*types.Basic); isStr {
+					g.addFact(fmt.Sprintf("(= %s %s)", ex.ofBytes(ex.curState, sli.Elem(), sl), x))
+				}
+			}
+		}
+		return sl
 	}
 	return fmt.Sprintf("(%s %s)", fn, x)
+}
+
+// ofBytes: the string spelled by the bytes of a []byte slice in state st (uninterpreted in the contents).
+func (ex *Exec) ofBytes(st *State, elem types.Type, sl string) string {
+	g := ex.g
+	comp := g.arrComp(elem)
+	g.decl("fn:st.ofbytes", fmt.Sprintf("(declare-fun st.ofbytes ((Array Int %s) Int Int) Str)", g.sortOf(elem)))
+	return fmt.Sprintf("(st.ofbytes (select %s (s.arr %s)) (s.off %s) (s.len %s))", ex.compGet(st, comp), sl, sl, sl)
 }
 
 func (ex *Exec) freshSliceOfLen(st *State, t types.Type, n string) string {
